@@ -17,16 +17,22 @@ import kern_gen
 import vlib
 
 PID = "C07"
-DRV_SOURCES = ["kern_h.c", "kern_drv_pred.c", "kern_drv_dist.c"]
-DRIVERS = ["intra_lbd", "intra_hbd", "sad", "sad4d", "variance", "variance_hbd", "obmc_sad", "obmc_variance", "obmc_subpel_variance"]
-GEN = os.path.join(vlib.BUILD, "work", "c07gen", "kern_table.c")
+GROUPS = [g for g in os.environ.get("C07_GROUPS", "").split(",") if g] or None
+SUFFIX = ("_" + "_".join(GROUPS)) if GROUPS else ""
+GEN = os.path.join(vlib.BUILD, "work", "c07gen" + SUFFIX, "kern_table.c")
 
 
-def build(variant="rel", name="kern_h", extra_sources=(), extra_ldflags="", gen=GEN):
+def sources_and_mods():
+    mods = kern_gen.rule_modules(GROUPS)
+    return ["kern_h.c"] + [s for m in mods for s in m.SOURCES], mods
+
+
+def build(variant="rel", name=None, extra_sources=(), extra_ldflags="", extra_cflags="", gen=GEN):
     vlib.ensure_build(variant)
-    info = kern_gen.emit(vlib.REPO, vlib.libs(variant), gen, DRIVERS)
-    exe = vlib.cc_harness(variant, name, DRV_SOURCES + [gen] + list(extra_sources), enc=True, dec=True, internal=True,
-                          extra_cflags="-Wno-deprecated-declarations", extra_ldflags=extra_ldflags)
+    srcs, mods = sources_and_mods()
+    info = kern_gen.emit(vlib.REPO, vlib.libs(variant), gen, mods)
+    exe = vlib.cc_harness(variant, name or ("kern_h" + SUFFIX), srcs + [gen] + list(extra_sources), enc=True, dec=True, internal=True,
+                          extra_cflags="-Wno-deprecated-declarations " + extra_cflags, extra_ldflags=extra_ldflags)
     return exe, info
 
 
@@ -72,15 +78,29 @@ class Worker:
                 self.p.kill()
 
 
-def cost(k):
-    w, h = max(k["w"], 4), max(k["h"], 4)
-    return w * h
+DUR = os.path.join(vlib.BUILD, "work", "c07gen", "durations.json")
+
+
+def load_durations():
+    try:
+        return json.load(open(DUR))
+    except Exception:
+        return {}
+
+
+def cost(k, dur, tier):
+    """longest-processing-time-first: measured wall time of the previous run of the tier, else a block-size guess"""
+    d = dur.get(tier, {}).get(k["ptr"])
+    if d is not None:
+        return d
+    return max(k["w"], 4) * max(k["h"], 4) * 1e-4
 
 
 def explore(exe, tier, deadline, kernels):
     """kernels: list of dicts from 'kern_h list' that have a driver. Returns {k index: result}."""
     q = queue.Queue()
-    for k in sorted(kernels, key=cost, reverse=True):
+    dur = load_durations()
+    for k in sorted(kernels, key=lambda k: cost(k, dur, tier), reverse=True):
         q.put(k["k"])
     res = {}
     lock = threading.Lock()
@@ -124,9 +144,16 @@ def run(tier, exe=None, info=None):
     kernels = [k for k in lst["kernels"] if k["have_driver"]]
     res = explore(exe, tier, ck.deadline - 30, kernels)
     byidx = {k["k"]: k for k in lst["kernels"]}
+    if not GROUPS and exe.endswith("kern_h"):
+        dur = load_durations()
+        dur.setdefault(tier, {}).update({byidx[ki]["ptr"]: d["wall"] for ki, d in res.items() if "wall" in d and not d.get("timed_out")})
+        try:
+            json.dump(dur, open(DUR, "w"))
+        except OSError:
+            pass
     calls = cases = pairs = pairs_nt = 0
     exhaustive = True
-    covered, samples, perdrv = [], [], collections.OrderedDict()
+    covered, samples, perdrv, sample_src = [], [], collections.OrderedDict(), []
     for ki in sorted(res):
         d, k = res[ki], byidx[ki]
         if d.get("skipped"):
@@ -161,9 +188,22 @@ def run(tier, exe=None, info=None):
                              (v["name"], d["c"], v["mismatches"], v["calls"], v["first_case"], v["desc"]),
                              {"k": k["ptr"], "v": v["name"], "case": v["first_case"], "tier": tier})
         covered.append({"kernel": k["ptr"], "driver": d["drv"], "variants": ok_variants, "argument_tuples": d["c_calls"]})
-        if len(samples) < 8 and d["c_calls"] and (ki % 37 == 0 or len(perdrv[d["drv"]]) and perdrv[d["drv"]]["kernels"] == 1):
-            samples.append({"kernel": k["ptr"], "c": d["c"], "variants": ok_variants, "argument_tuples": d["c_calls"],
-                            "replay": "bin/check C07 --replay with {k: %s, case: 0..%d}" % (k["ptr"], d["cases"] - 1)})
+        if d["c_calls"] and perdrv[d["drv"]]["kernels"] == 1:
+            sample_src.append((k["ptr"], d["c"], ok_variants, d["cases"]))
+    # concrete cases: one argument tuple of the first kernel of each driver, written out by the harness itself
+    for ptr, cname, vs, ncases in sample_src[:40]:
+        if time.time() > ck.deadline - 5:
+            break
+        want = min(ncases - 1, (ncases * 5) // 8 + 11)
+        try:
+            p = subprocess.run([exe, "replay", "k=%s" % ptr, "case=%d" % want, "tier=%s" % tier], stdout=subprocess.PIPE, stderr=subprocess.DEVNULL, timeout=60)
+            line = [l for l in p.stdout.decode("latin1").splitlines() if l.startswith("case ")]
+        except subprocess.TimeoutExpired:
+            line = []
+        if line:
+            samples.append({"kernel": ptr, "c": cname, "variants": vs, "case": want, "arguments_and_c_result": line[0][:500]})
+    if not samples:
+        samples = [{"kernel": c["kernel"], "variants": c["variants"], "argument_tuples": c["argument_tuples"]} for c in covered[:5]]
     not_covered = sorted(i["ptr"] for i in info if i["variants"] and not i["driver"])
     c_only = sorted(i["ptr"] for i in info if not i["variants"] and not i["not_in_build"])
     not_in_build = sorted("%s:%s" % (i["ptr"], f) for i in info for _, f in i["not_in_build"])
@@ -205,3 +245,55 @@ def replay(path):
     p = subprocess.run(argv, stdout=subprocess.PIPE, stderr=subprocess.STDOUT, timeout=600)
     print(p.stdout.decode("latin1")[-6000:])
     return 1 if p.returncode else 0
+
+
+# --------------------------------------------------------------------------------------------- detection demonstration
+MUTANTS = {
+    # name: (file relative to /repo, anchor text (mutation applies to the first occurrence of old after it), old, new, extra cflags)
+    "dc32x32-rounding": ("Source/Lib/Common/ASM_AVX2/EbIntraPrediction_Intrinsic_AVX2.c", "void svt_aom_dc_predictor_32x32_avx2(",
+                         "_mm256_set1_epi16(32)", "_mm256_set1_epi16(31)", "-mavx2"),
+    "sad16x8-rows": ("Source/Lib/Encoder/ASM_AVX2/EbComputeSAD_Intrinsic_AVX2.c", "uint32_t svt_aom_sad16x8_avx2(",
+                     "ref_stride, 8);", "ref_stride, 4);", "-mavx2"),
+    "fwd-txfm-8x8-rounding": ("Source/Lib/Encoder/ASM_AVX2/highbd_fwd_txfm_avx2.c", "static INLINE void col_txfm_8x8_rounding(",
+                              "_mm256_set1_epi32(1 << (shift - 1));", "_mm256_set1_epi32((1 << (shift - 1)) - 1);", "-mavx2"),
+    "inv-txfm-rounding": ("Source/Lib/Common/ASM_AVX2/highbd_inv_txfm_avx2.c", "static INLINE void round_shift_4x4_avx2(",
+                          "_mm256_set1_epi32(1 << (shift - 1));", "_mm256_set1_epi32((1 << (shift - 1)) - 1);", "-mavx2"),
+    "lpf-saturate-vs-wrap": ("Source/Lib/Common/ASM_SSE2/EbDeblockingFilter_Intrinsic_SSE2.c", "+ 3 * (qs0 - ps0)",
+                             "_mm_subs_epi8(", "_mm_sub_epi8(", "-msse2"),
+    "cdef-constrain-saturate": ("Source/Lib/Common/ASM_AVX2/cdef_block_avx2.c", "",
+                                "_mm256_subs_epu16(threshold, l);", "_mm256_sub_epi16(threshold, l);", "-mavx2"),
+    "obmc-variance-bias": ("Source/Lib/Encoder/ASM_AVX2/obmc_variance_avx2.c", "static INLINE void obmc_variance_w8n(",
+                           "_mm256_set1_epi32((1 << 12) >> 1);", "_mm256_set1_epi32(((1 << 12) >> 1) - 1);", "-mavx2"),
+}
+
+
+def build_mutant(name):
+    """Harness with a mutated copy of one kernel source compiled in ahead of the library archive."""
+    import shutil
+    rel, anchor, old, new, cfl = MUTANTS[name]
+    d = os.path.join(vlib.BUILD, "work", "c07_mut_" + name)
+    shutil.rmtree(d, ignore_errors=True)
+    os.makedirs(d)
+    src = open(os.path.join(vlib.REPO, rel)).read()
+    a = src.index(anchor) if anchor else 0
+    i = src.index(old, a)
+    dst = os.path.join(d, os.path.basename(rel))
+    open(dst, "w").write(src[:i] + new + src[i + len(old):])
+    return build("rel", "kern_h_mut_" + name, extra_sources=[dst], extra_ldflags="-Wl,--allow-multiple-definition",
+                 extra_cflags=cfl + " -I" + os.path.dirname(os.path.join(vlib.REPO, rel)))
+
+
+def demo_mutants(names=None, tier="quick"):
+    """python3 -c 'import sys; sys.path[:0]=["lib","lib/checks"]; import c07; c07.demo_mutants()'"""
+    out = {}
+    for n in names or sorted(MUTANTS):
+        exe, info = build_mutant(n)
+        evid = os.path.join(vlib.EVID, PID + ".json")
+        keep = open(evid).read() if os.path.exists(evid) else None
+        rc = run(tier, exe=exe, info=info)
+        ev = json.load(open(evid))
+        out[n] = {"exit": rc, "keys": ev["distinct_violation_keys"]}
+        if keep is not None:
+            open(evid, "w").write(keep)
+        print("MUTANT %s: exit=%d keys=%s" % (n, rc, ev["distinct_violation_keys"]), flush=True)
+    return out
